@@ -11,7 +11,7 @@ from ..values import (Num, Const, Tup, Term, Obj, P, Val, Kw, arr_param, scalar_
 from ..model import AnalysisError
 from ..symeval import Evaluator, State, Frame
 from .. import api, callgraph
-from .common import S, run as runf, need_num, show, REPO_RESULT_KIND, no_sau, SAU
+from .common import S, run as runf, need_num, show, REPO_RESULT_KIND, no_sau, SAU, inline_except, SCANS
 
 MATCH = 'traffic_weaver.match.'
 KERNEL = MATCH + '_integral_matching_stretch'
@@ -30,25 +30,24 @@ def is_len2(p: Val, L: Rat) -> Optional[bool]:
     return None
 
 
-def method_literals_of_integral(ctx) -> List[str]:
-    """string literals the dispatcher `integral` compares its method parameter with, and proof that
-    the no-match path raises ValueError"""
+def method_literals_of_integral(ctx):
+    """the documented rule names are dispatched by `integral` (each returns an array); an unknown name raises ValueError
+    (decided by specialising the parameter to each literal: independent of the dispatch idiom)"""
     fi = ctx.prog.func(INTEGRAL)
     params = fi.params()
     if len(params) < 3:
         raise AnalysisError(f"{fi.qualname}: expected (x, y, method)")
     L = sym.sym('L')
-    mparam = Term('param', (Const('method'),), kind='str')
-    res, ev, st, fi = runf(ctx.prog, INTEGRAL, pos=[arr_param('x', length=L), arr_param('y', length=L), mparam], inline=lambda f: False)
     lits = []
-    for e in ev.events:
-        if e.kind == 'call':
-            for g in e.guard:
-                q = g
-                if isinstance(q, P) and q.op == 'eq' and veq(q.args[0], mparam) and isinstance(q.args[1], Const):
-                    if q.args[1].v not in lits:
-                        lits.append(q.args[1].v)
+    for lit in ('trapezoid', 'rectangle'):
+        res, ev, st, fi = runf(ctx.prog, INTEGRAL, pos=[arr_param('x', length=L), arr_param('y', length=L), Const(lit)])
+        if isinstance(res, Num) and res.length is not None and not [e for e in ev.events if e.kind == 'raise' and not e.guard]:
+            lits.append(lit)
+    res, ev, st, fi = runf(ctx.prog, INTEGRAL, pos=[arr_param('x', length=L), arr_param('y', length=L), Const('__no_such_rule__')])
     raises = [e for e in ev.events if e.kind == 'raise']
+    rets = [e for e in ev.events if e.kind in ('return', 'fallthrough') and (e.func is fi or e.data.get('func') is fi)]
+    if rets:
+        raises = []
     return lits, raises, fi
 
 
@@ -137,8 +136,9 @@ def check_tables(ctx):
     return lits
 
 
-def opaque(fi):
-    return False
+PUBLIC_ANCHORS = (SAU + 'find_closest_element_indices_to_values', SAU + 'integral', SAU + 'sum_over_indices',
+                  MATCH + '_interval_integral_matching_stretch', MATCH + '_integral_matching_stretch', 'traffic_weaver.process.spline_smooth') + SCANS
+opaque = inline_except(*PUBLIC_ANCHORS)
 
 
 def check_public(ctx, lits):
@@ -273,7 +273,7 @@ def check_interval_loop(ctx):
     ctx.floor('C01.4', len(kcalls), 1, 'kernel calls in the interval loop')
     for e in stores:
         inst = f"store at {e.loc()}"
-        if len(e.loops) != 1 or e.loops[0].kind not in ('zip', 'range'):
+        if len(e.loops) != 1 or e.loops[0].sym is None:
             ctx.unknown('C01.4', inst, 'store is not inside the recognised single interval loop', e.loc(), fi.qualname, 'loop')
             continue
         j = e.loops[0].sym
